@@ -196,3 +196,22 @@ func Yield(label string) { yieldPoint("harness:" + label) }
 // Blocked / HeldLocks are executor-only observations (0 natively).
 func Blocked() int   { return 0 }
 func HeldLocks() int { return 0 }
+
+// ClockAdvance moves the harness clock forward by d milliseconds (symbolic runs: the
+// time model; native runs: really wait).  d == 0 natively means "within the same
+// millisecond as far as possible".
+func ClockAdvance(d int64) {
+	if d > 0 {
+		start := time.Now().UnixMilli()
+		for time.Now().UnixMilli() < start+d {
+			time.Sleep(200 * time.Microsecond)
+		}
+	}
+}
+
+// ClockAlign waits for the start of a fresh millisecond (native only).
+func ClockAlign() {
+	start := time.Now().UnixMilli()
+	for time.Now().UnixMilli() == start {
+	}
+}
